@@ -6,4 +6,6 @@ cd "$(dirname "$0")"
 mkdir -p work evidence
 ( cd coq && coq_makefile -f _CoqProject -o Makefile >/dev/null && timeout 3000 make -j16 >work_build.log 2>&1 || { tail -50 work_build.log; exit 1; } ; rm -f work_build.log )
 ( cd harness && CARGO_NET_OFFLINE=true RUSTFLAGS="--cfg unhindered_ec_verif" CARGO_TARGET_DIR="$PWD/../work/target" timeout 3000 cargo build --offline --quiet )
+# the same in the release profile (every check also runs its inputs through a release build)
+( cd harness && CARGO_NET_OFFLINE=true RUSTFLAGS="--cfg unhindered_ec_verif" CARGO_TARGET_DIR="$PWD/../work/target" timeout 3000 cargo build --offline --quiet --release )
 echo "setup done"
